@@ -1484,9 +1484,15 @@ func Run(r *core.Run) {
 	}
 	runCases(r, cases, func(i int) []buildConfig {
 		configs := []buildConfig{cfgPlain}
-		if r.Thorough() {
+		if v := cases[i].Variant; r.Thorough() && (v == "names" || v == "rxchain") {
+			// (the big new families: a third configuration for every third graph)
+			configs = append(configs, cfgMinify)
+			if i%3 == 0 {
+				configs = append(configs, extraConfigs[(i/3)%len(extraConfigs)])
+			}
+		} else if r.Thorough() {
 			configs = append(configs, cfgMinify, extraConfigs[i%len(extraConfigs)])
-		} else if v := cases[i].Variant; v == "names" || v == "rxchain" {
+		} else if v == "names" || v == "rxchain" {
 			// the collision renamers differ with and without minification: both, always
 			configs = append(configs, cfgMinify)
 		} else if (i+int(r.Seed))%2 == 0 {
